@@ -750,7 +750,60 @@ def _np_cumsum(eng, args, kwargs):
     return out
 
 
+def _np_diff(eng, args, kwargs):
+    """np.diff(a) of a 1-D array (n = 1, last axis): out[i] = a[i+1] - a[i], max(len(a) - 1, 0) entries, a fresh array."""
+    a = args[0]
+    if kwargs.get("n", args[1] if len(args) > 1 else 1) != 1 or set(kwargs) - {"n", "axis"}:
+        raise Unsupported("np.diff with n != 1 / prepend / append")
+    if isinstance(a, PList) and a.items is None and not a.tup:
+        a = SArr(a.cols[0], a.n, a.kinds[0])
+    if isinstance(a, SArr) and not hasattr(a, "__pyvc_getitem__"):
+        if kwargs.get("axis", args[2] if len(args) > 2 else -1) not in (-1, 0):
+            raise ProgExc(ValueError, "axis out of bounds for a 1-D array")
+        if a.kind not in ("int", "real"):
+            raise Unsupported("np.diff of a boolean array")
+        used(eng, "np.diff-1d: out[i] = a[i+1] - a[i], max(len - 1, 0) entries, fresh")
+        n = a.nz()
+        return SArr(lam(lambda i: a.get(i + 1).z - a.get(i).z, a.kind), z3.simplify(z3.If(n >= 1, n - 1, z3.IntVal(0))), a.kind, name="diff", dtype=a.dtype)
+    if isinstance(a, NArr) and a.ndim == 1 and a.kind in ("int", "real"):
+        used(eng, "np.diff-1d: out[i] = a[i+1] - a[i], max(len - 1, 0) entries, fresh")
+        it = a.items
+        return NArr((max(len(it) - 1, 0),), [eng.binop(ast.Sub(), it[j + 1], it[j]) for j in range(len(it) - 1)], a.kind, a.dtype)
+    raise Unsupported("np.diff of this operand")
+
+
+def _np_all_any(is_all):
+    def model(eng, args, kwargs):
+        """np.all(a) / np.any(a) without axis: the conjunction / disjunction of the truth values of all entries (True / False when empty)."""
+        a = args[0]
+        if len(args) != 1 or kwargs:
+            raise Unsupported("np.all / np.any with an axis")
+        if isinstance(a, SArr):
+            used(eng, "np.all/np.any: every / some entry is true")
+            j = z3.Int(fresh_name("j"))
+            t = (lambda x: x.z) if a.kind == "bool" else (lambda x: x.z != 0)
+            if is_all:
+                return eng.sbool(z3.ForAll([j], z3.Implies(z3.And(j >= 0, j < a.nz()), t(a.get(j)))))
+            return eng.sbool(z3.Exists([j], z3.And(j >= 0, j < a.nz(), t(a.get(j)))))
+        if isinstance(a, PList) and a.items is not None:
+            items = a.items
+        elif isinstance(a, NArr):
+            items = a.items
+        elif kind_of(a) is not None:
+            items = [a]
+        else:
+            raise Unsupported("np.all / np.any of this operand")
+        used(eng, "np.all/np.any: every / some entry is true")
+        acc = is_all
+        for x in items:
+            acc = eng.and_(acc, eng.truth(x)) if is_all else eng.or_(acc, eng.truth(x))
+        return acc
+
+    return model
+
+
 NP_MODELS = {
+    np.diff: _np_diff, np.all: _np_all_any(True), np.any: _np_all_any(False),
     np.cumsum: _np_cumsum,
     np.arange: _np_arange, np.where: _np_where, np.count_nonzero: _np_count_nonzero, np.full_like: _np_full_like,
     np.ones_like: _np_ones_like, np.zeros_like: _np_zeros_like, np.array: _np_array, np.issubdtype: _np_issubdtype,
